@@ -5,6 +5,17 @@ import os
 HERE = os.path.dirname(os.path.dirname(os.path.abspath(__file__)))
 
 CLAIMED = {
+    "C04": dict(
+        level="fault_enumeration", design="DESIGN.md 3/C04",
+        text=("Every operation of a seeded history (constructor, assignment, deletion, all helpers incl. _inplace=True, "
+              "multi-keyword update/transform, element helpers) is re-executed with an injected exception at callback "
+              "invocation index j=1,2,... until it completes; ill-formed inputs (wrong type per position, missing "
+              "index/key/element, duplicate key, unknown keyword) come from the argument generator. Whenever an execution "
+              "raises, the identity snapshot of all live instances, argument objects and class-level defaults must be unchanged."),
+        note=("Trusted: the harness snapshot walker; callbacks from the pure-function pool. Asynchronous aborts are deliberately "
+              "not injected (the property quantifies over callback exceptions and ill-formed inputs)."),
+        technique="deterministic simulation: seeded operation histories + exhaustive callback-fault index enumeration per operation, identity-snapshot oracle",
+    ),
     "C01": dict(
         level="fault_enumeration", design="DESIGN.md 3/C01",
         text=("Seeded histories over generated spec classes; each probed copy-on-write helper call is re-executed "
